@@ -129,7 +129,7 @@ def obligations(tier: str):
         obs.append(Ob(h, cfg, name=name, timeout=timeout * (8 if T else 1), path_timeout=60))
 
     deltas = (0, 1, 2, 3) if T else (0, 1, 2)
-    for fxn in ("f1", "f3", "f4", "f0") + (("f3b",) if T else ()):
+    for fxn in ("f1", "f3", "f4", "f0", "f9") + (("f3b",) if T else ()):
         for dec in ("grow", "full", "pi"):
             for d in deltas:
                 if fxn in ("f1", "f4") and d >= 2 and dec != "grow" and not T:
@@ -146,6 +146,10 @@ def obligations(tier: str):
             for d in (0, 1) + ((2,) if T and fxn != "f1" else ()):
                 add("feasible", f"{rep}_{fxn}_m+{d}", fixture=fxn, rep=rep, decider="grow", delta=d, gene_length=gl)
             add("infeasible", f"{rep}_{fxn}_m-1", fixture=fxn, rep=rep, decider="grow", gene_length=gl)
+    for rep in ("ge", "sge"):
+        add("feasible", f"{rep}_f9_m+1", fixture="f9", rep=rep, decider="grow", delta=1, gene_length=6 if rep == "ge" else 2)
+    for op in ("mutate", "crossover"):
+        add("feasible", f"tree_grow_f9_m+1_{op}", fixture="f9", rep="tree", decider="grow", delta=1, ops=[op])
     # after variation, same limit
     for fxn in ("f1", "f3"):
         for op in ("mutate", "crossover"):
